@@ -146,4 +146,7 @@ package trie
 //@   ensures [fresh] (istype(result, *shortNode) ==> fresh(unbox(result, *shortNode))) && (istype(result, *fullNode) ==> fresh(unbox(result, *fullNode)))
 //@   ensures [kinds] (istype(result, *shortNode) ==> istype(n, *rawShortNode)) && (istype(result, *fullNode) ==> istype(n, rawFullNode))
 //@   loop 0: invariant i >= 0 && node != nil && fresh(node) && node.flags.hash == hash && node.flags.gen == cachegen && !node.flags.dirty
+//@   loop 0: invariant forall j int :: i <= j && j < 17 ==> typeid(node.Children[j]) == 0
+//@   loop 0: invariant forall j int :: 0 <= j && j < i && j < 17 ==> (istype(node.Children[j], *shortNode) ==> len(unbox(node.Children[j], *shortNode).flags.hash) == 0) && (istype(node.Children[j], *fullNode) ==> len(unbox(node.Children[j], *fullNode).flags.hash) == 0 && unbox(node.Children[j], *fullNode) != node)
+//@   ensures [child.full] istype(n, rawFullNode) ==> forall j int :: 0 <= j && j < 17 ==> (istype(unbox(result, *fullNode).Children[j], *shortNode) ==> len(unbox(unbox(result, *fullNode).Children[j], *shortNode).flags.hash) == 0) && (istype(unbox(result, *fullNode).Children[j], *fullNode) ==> len(unbox(unbox(result, *fullNode).Children[j], *fullNode).flags.hash) == 0)
 //@   modifies nothing
